@@ -182,3 +182,4 @@ def run(ctx):
     from . import C17
     from .common import shared
     shared(ctx, lambda c: C17.stored_fields(c, only={'RangeStatement::<P>::init': ['commitments', 'seed_nonce'], 'ExtendedMask::assign': ['blindings'], 'CommitmentOpening::new': ['v', 'r']}), 'R-C17-3', 'R-C09-4')
+    shared(ctx, lambda c: C17.copies_are_complete(c, only=('RangeStatement', 'ExtendedMask', 'CommitmentOpening', 'RangeWitness')), 'R-C17-3', 'R-C09-4')
